@@ -1,6 +1,9 @@
 #!/bin/bash
-# runs every line of tools/mutants.txt through tools/mut.sh, 3 at a time
+# runs every line of tools/mutants.txt (or the names given as arguments) through tools/mut.sh, 3 at a time
 cd /verif
-grep -v '^#' tools/mutants.txt | while IFS='|' read name file expr checks; do
-  echo "$name|$file|$expr|$checks"
-done | xargs -P 3 -d '\n' -I{} bash -c 'IFS="|" read name file expr checks <<< "{}"; tools/mut.sh "$name" "$file" "$expr" $checks' 2>&1 | grep "^MUT"
+run_one() {
+  IFS='|' read -r name file expr checks <<< "$1"
+  tools/mut.sh "$name" "$file" "$expr" $checks
+}
+export -f run_one
+grep -v '^#' tools/mutants.txt | { if [ $# -gt 0 ]; then grep -E "^($(echo "$@" | tr ' ' '|'))\|"; else cat; fi; } | xargs -P 3 -d '\n' -I{} bash -c 'run_one "$@"' _ {} 2>&1 | grep "^MUT"
